@@ -294,4 +294,7 @@ def check(ctx, rep):
     from .c02 import rule_global_removal_scope
 
     rule_global_removal_scope(ctx, rep)
+    from .c16 import rule_rebuild_keeps_all
+
+    rule_rebuild_keeps_all(ctx, rep)
     rep.not_covered += ["observational equivalence over programs and runtime values", "SQL parameterisation returning the same rows", "tuple-valued names producing nested tuples in combine_args"]
